@@ -322,6 +322,10 @@ func (p *c11) Gen(ctx core.Ctx, i int) any {
 			}
 			b.WriteString(`</div>`)
 			files[n] = b.String()
+			if form == 0 && g%2 == 1 {
+				// the include is the very first node of the file (no wrapping element)
+				files[n] = strings.TrimSuffix(strings.TrimPrefix(files[n], `<div data-f="`+n+`">`), `</div>`)
+			}
 		}
 		files["box.vuego"] = `<div class="box"><slot>empty</slot></div>`
 		return c11Case{Part: "graph", Files: files, Entry: "a.vuego", EP: []string{"file", "vue", "renderfile", "fragment"}[g%4]}
